@@ -5,6 +5,7 @@ from collections.abc import Callable
 from dataclasses import dataclass, field
 from typing import Any
 
+from xsdata.exceptions import ParserError
 from xsdata.formats.dataclass.parsers import DictDecoder
 from xsdata.formats.types import T
 
@@ -91,8 +92,12 @@ class JsonParser(DictDecoder):
         Returns:
             The loaded dictionary or list of dictionaries.
         """
-        if not hasattr(source, "read"):
-            with open(source, "rb") as fp:
-                return self.load_factory(fp)
+        try:
+            if not hasattr(source, "read"):
+                with open(source, "rb") as fp:
+                    return self.load_factory(fp)
 
-        return self.load_factory(source)
+            return self.load_factory(source)
+        except ValueError as e:
+            # json.JSONDecodeError and UnicodeDecodeError
+            raise ParserError(e)
